@@ -122,7 +122,8 @@ func c18Preamble() []command.Command {
 
 // c18Menu returns the command alphabet of one world ('E' = starts from the empty machine,
 // 'L' = starts after c18Preamble). r0 is the revision at which the "valid expected revision"
-// variants match (1 = right after init; 6 = right after the preamble). The quick tier uses a
+// variants match (1 = right after init; 6 = right after the preamble); ".../rev+1" variants
+// expect r0+1: stale at the start, matching after exactly one change, stale again later. The quick tier uses a
 // sub-menu (entries tagged with a lower-case world letter are thorough-only).
 func c18Menu(world byte, r0 uint64, thorough bool) []c18Cmd {
 	type ent struct {
@@ -156,14 +157,14 @@ func c18Menu(world byte, r0 uint64, thorough bool) []c18Cmd {
 		{"E", "init-nil", command.Command{Kind: command.KindInitClusterState, IssuedAt: c18T(0)}},
 		// upsert_node
 		{"EL", "node3-leaving", command.Command{Kind: command.KindUpsertNode, IssuedAt: c18T(11).In(zone), Node: &n3leaving}},
-		{"e", "node3-same/stale-rev", command.Command{Kind: command.KindUpsertNode, IssuedAt: c18T(12), ExpectedRevision: c18Rev(r0 + 5), Node: &n3}},
+		{"e", "node3-same/rev+1", command.Command{Kind: command.KindUpsertNode, IssuedAt: c18T(12), ExpectedRevision: c18Rev(r0 + 1), Node: &n3}},
 		{"E", "node3-renamed/rev0", command.Command{Kind: command.KindUpsertNode, ExpectedRevision: c18Rev(r0), Node: &n3renamed}},
 		{"El", "node2-removed", command.Command{Kind: command.KindUpsertNode, IssuedAt: c18T(13), Node: &n2removed}},
 		// update_controller_voters
-		{"E", "voters-12", command.Command{Kind: command.KindUpdateControllerVoters, IssuedAt: c18T(14), Controllers: []state.ControllerVoter{{NodeID: 2, Addr: "a2", Role: state.ControllerRoleVoter}, {NodeID: 1, Addr: "a1", Role: state.ControllerRoleVoter}}}},
+		{"e", "voters-12", command.Command{Kind: command.KindUpdateControllerVoters, IssuedAt: c18T(14), Controllers: []state.ControllerVoter{{NodeID: 2, Addr: "a2", Role: state.ControllerRoleVoter}, {NodeID: 1, Addr: "a1", Role: state.ControllerRoleVoter}}}},
 		{"El", "voters-1/rev0", command.Command{Kind: command.KindUpdateControllerVoters, IssuedAt: c18T(14), ExpectedRevision: c18Rev(r0), Controllers: []state.ControllerVoter{{NodeID: 1, Addr: "a1", Role: state.ControllerRoleVoter}}}},
 		{"E", "voters-13", command.Command{Kind: command.KindUpdateControllerVoters, IssuedAt: c18T(15), Controllers: []state.ControllerVoter{{NodeID: 1, Addr: "a1", Role: state.ControllerRoleVoter}, {NodeID: 3, Addr: "a3", Role: state.ControllerRoleVoter}}}},
-		{"E", "voters-empty", command.Command{Kind: command.KindUpdateControllerVoters, IssuedAt: c18T(15)}},
+		{"e", "voters-empty", command.Command{Kind: command.KindUpdateControllerVoters, IssuedAt: c18T(15)}},
 		// promote_controller_voter
 		{"El", "promote3", command.Command{Kind: command.KindPromoteControllerVoter, IssuedAt: c18T(16), ControllerVoterPromotion: &command.ControllerVoterPromotion{TargetNodeID: 3, TargetAddr: "a3", ExpectedPreviousVoters: []uint64{1, 2}, ObservedConfigIndex: 42, ObservedVoters: []uint64{3, 1, 2}}}},
 		{"E", "promote3-no-proof", command.Command{Kind: command.KindPromoteControllerVoter, IssuedAt: c18T(16), ControllerVoterPromotion: &command.ControllerVoterPromotion{TargetNodeID: 3, TargetAddr: "a3", ExpectedPreviousVoters: []uint64{1, 2}, ObservedVoters: []uint64{1, 2, 3}}}},
@@ -171,11 +172,11 @@ func c18Menu(world byte, r0 uint64, thorough bool) []c18Cmd {
 		{"e", "promote-invalid", command.Command{Kind: command.KindPromoteControllerVoter, IssuedAt: c18T(16), ControllerVoterPromotion: &command.ControllerVoterPromotion{TargetAddr: "a3", ObservedConfigIndex: 42}}},
 		// replace_hash_slot_table
 		{"El", "hashslots-moved", command.Command{Kind: command.KindReplaceHashSlotTable, IssuedAt: c18T(17), HashSlots: &movedTable}},
-		{"e", "hashslots-initial/stale-rev", command.Command{Kind: command.KindReplaceHashSlotTable, IssuedAt: c18T(17), ExpectedRevision: c18Rev(r0 + 7), HashSlots: &initTable}},
-		{"E", "hashslots-not-covering", command.Command{Kind: command.KindReplaceHashSlotTable, IssuedAt: c18T(17), HashSlots: &badTable}},
+		{"e", "hashslots-initial/rev+1", command.Command{Kind: command.KindReplaceHashSlotTable, IssuedAt: c18T(17), ExpectedRevision: c18Rev(r0 + 1), HashSlots: &initTable}},
+		{"e", "hashslots-not-covering", command.Command{Kind: command.KindReplaceHashSlotTable, IssuedAt: c18T(17), HashSlots: &badTable}},
 		// replace_scheduled_backup_state
 		{"El", "backup-empty", command.Command{Kind: command.KindReplaceScheduledBackupState, IssuedAt: c18T(18), ScheduledBackup: &state.ScheduledBackupState{Revision: 1, ManagerSessionEpoch: 1}}},
-		{"E", "backup-plan/rev0", command.Command{Kind: command.KindReplaceScheduledBackupState, IssuedAt: c18T(18), ExpectedRevision: c18Rev(r0), ScheduledBackup: &state.ScheduledBackupState{Revision: 2, ManagerSessionEpoch: 1, Plan: c18BackupPlan(),
+		{"e", "backup-plan/rev0", command.Command{Kind: command.KindReplaceScheduledBackupState, IssuedAt: c18T(18), ExpectedRevision: c18Rev(r0), ScheduledBackup: &state.ScheduledBackupState{Revision: 2, ManagerSessionEpoch: 1, Plan: c18BackupPlan(),
 			History: []state.BackupTaskRecord{{ID: "bk-1", Kind: "backup", Trigger: state.BackupTriggerManual, Status: "succeeded", StartedUnixMillis: 1771000000000, CompletedUnixMillis: 1771000300000}}}}},
 		{"e", "backup-invalid", command.Command{Kind: command.KindReplaceScheduledBackupState, IssuedAt: c18T(18), ScheduledBackup: &state.ScheduledBackupState{Revision: 0}}},
 		// replace_ops_mcp_state
@@ -188,23 +189,24 @@ func c18Menu(world byte, r0 uint64, thorough bool) []c18Cmd {
 		{"EL", "boot2", c18Bootstrap(2, "s2-boot", []uint64{2, 1}, 1, nil, c18T(2))},
 		{"el", "boot2/stale-rev", c18Bootstrap(2, "s2-boot", []uint64{1, 2}, 1, c18Rev(0), c18T(2))},
 		{"EL", "xfer1", c18Transfer(1, "s1-xfer", nil, c18T(21))},
-		{"l", "xfer1-other-id/stale-rev", c18Transfer(1, "s1-xfer-b", c18Rev(r0+9), c18T(22))},
+		{"l", "xfer1-other-id/rev+1", c18Transfer(1, "s1-xfer-b", c18Rev(r0+1), c18T(22))},
 		{"e", "assignment-task-slot-mismatch", mismatch},
-		{"EL", "boot1-unknown-peer", c18Bootstrap(1, "s1-boot", []uint64{1, 9}, 2, nil, c18T(24))},
+		{"El", "boot1-unknown-peer", c18Bootstrap(1, "s1-boot", []uint64{1, 9}, 2, nil, c18T(24))},
 		// upsert_slot_replica_move_task
 		{"EL", "move2", c18Move(c18MoveTask(2, "s2-move", 2, 3, []uint64{3, 1}), nil, c18T(4))},
-		{"L", "move2/stale-rev", c18Move(c18MoveTask(2, "s2-move", 2, 3, []uint64{1, 3}), c18Rev(r0+11), c18T(25))},
-		{"L", "move1", c18Move(c18MoveTask(1, "s1-move", 1, 3, []uint64{2, 3}), nil, c18T(26))},
+		{"L", "move2/rev+1", c18Move(c18MoveTask(2, "s2-move", 2, 3, []uint64{1, 3}), c18Rev(r0+1), c18T(25))},
+		{"l", "move1", c18Move(c18MoveTask(1, "s1-move", 1, 3, []uint64{2, 3}), nil, c18T(26))},
 		{"el", "move-wrong-kind", wrongKind},
 		// advance_slot_replica_move_phase
-		{"L", "adv-p0-add", c18Adv("s2-move", 1, 0, 0, state.TaskStepAddLearner, 5, []uint64{1, 2}, nil, c18T(5))},
+		{"l", "adv-p0-add", c18Adv("s2-move", 1, 0, 0, state.TaskStepAddLearner, 5, []uint64{1, 2}, nil, c18T(5))},
 		{"eL", "adv-p1-remove", c18Adv("s2-move", 1, 0, 1, state.TaskStepRemoveVoter, 7, []uint64{2, 3, 1}, nil, c18T(30))},
 		{"L", "adv-p1-promote", c18Adv("s2-move", 1, 0, 1, state.TaskStepPromoteLearner, 6, []uint64{1, 2}, []uint64{3}, c18T(31))},
+		{"l", "adv-p1-promote/no-learner", c18Adv("s2-move", 1, 0, 1, state.TaskStepPromoteLearner, 6, []uint64{1, 2}, nil, c18T(31))},
 		{"L", "adv-p2-remove", c18Adv("s2-move", 1, 0, 2, state.TaskStepRemoveVoter, 8, []uint64{1, 2, 3}, nil, c18T(32))},
 		{"L", "adv-p2-commit", c18Adv("s2-move", 1, 0, 2, state.TaskStepCommitAssignment, 9, []uint64{3, 1}, nil, c18T(33))},
 		{"l", "adv-p3-commit", c18Adv("s2-move", 1, 0, 3, state.TaskStepCommitAssignment, 9, []uint64{1, 3}, nil, c18T(33))},
 		{"L", "adv-p1-remove/attempt1", c18Adv("s2-move", 1, 1, 1, state.TaskStepRemoveVoter, 7, []uint64{1, 2, 3}, nil, c18T(34))},
-		{"L", "adv-p1-remove/epoch9", c18Adv("s2-move", 9, 0, 1, state.TaskStepRemoveVoter, 7, []uint64{1, 2, 3}, nil, c18T(34))},
+		{"l", "adv-p1-remove/epoch9", c18Adv("s2-move", 9, 0, 1, state.TaskStepRemoveVoter, 7, []uint64{1, 2, 3}, nil, c18T(34))},
 		{"L", "adv-p1-remove/no-proof", c18Adv("s2-move", 1, 0, 1, state.TaskStepRemoveVoter, 0, []uint64{1, 2, 3}, nil, c18T(34))},
 		{"l", "adv-invalid", c18Adv("", 1, 0, 1, state.TaskStepRemoveVoter, 7, []uint64{1, 2, 3}, nil, c18T(34))},
 		// commit_slot_replica_move
@@ -216,15 +218,15 @@ func c18Menu(world byte, r0 uint64, thorough bool) []c18Cmd {
 		// complete_task
 		{"EL", "done-s1boot", c18Result(command.KindCompleteTask, "s1-boot", 1, state.TaskKindBootstrap, 1, 0, "", nil, c18T(36))},
 		{"L", "done-s1boot/attempt1", c18Result(command.KindCompleteTask, "s1-boot", 1, state.TaskKindBootstrap, 1, 1, "", nil, c18T(36))},
-		{"eL", "done-s1boot/stale-rev", c18Result(command.KindCompleteTask, "s1-boot", 1, state.TaskKindBootstrap, 1, 0, "", c18Rev(r0+13), c18T(36))},
+		{"eL", "done-s1boot/rev+1", c18Result(command.KindCompleteTask, "s1-boot", 1, state.TaskKindBootstrap, 1, 0, "", c18Rev(r0+1), c18T(36))},
 		{"L", "done-s2move", c18Result(command.KindCompleteTask, "s2-move", 2, state.TaskKindSlotReplicaMove, 1, 0, "", nil, c18T(37))},
-		{"l", "done-s1boot/wrong-slot", c18Result(command.KindCompleteTask, "s1-boot", 2, state.TaskKindBootstrap, 1, 0, "", nil, c18T(37))},
+		{"L", "done-s1boot/wrong-slot", c18Result(command.KindCompleteTask, "s1-boot", 2, state.TaskKindBootstrap, 1, 0, "", nil, c18T(37))},
 		{"l", "done-invalid", c18Result(command.KindCompleteTask, "", 1, state.TaskKindBootstrap, 1, 0, "", nil, c18T(37))},
 		// fail_task
 		{"EL", "fail-s1boot", c18Result(command.KindFailTask, "s1-boot", 1, state.TaskKindBootstrap, 1, 0, "boom: \"é\" <slot 1>", nil, c18T(38))},
 		{"L", "fail-s2move", c18Result(command.KindFailTask, "s2-move", 2, state.TaskKindSlotReplicaMove, 1, 0, "learner lagging", nil, c18T(39))},
-		{"L", "fail-s1boot/stale-rev", c18Result(command.KindFailTask, "s1-boot", 1, state.TaskKindBootstrap, 1, 0, "late", c18Rev(r0+15), c18T(39))},
-		{"l", "fail-s1boot/wrong-kind", c18Result(command.KindFailTask, "s1-boot", 1, state.TaskKindLeaderTransfer, 1, 0, "x", nil, c18T(39))},
+		{"l", "fail-s1boot/rev+1", c18Result(command.KindFailTask, "s1-boot", 1, state.TaskKindBootstrap, 1, 0, "late", c18Rev(r0+1), c18T(39))},
+		{"L", "fail-s1boot/wrong-kind", c18Result(command.KindFailTask, "s1-boot", 1, state.TaskKindLeaderTransfer, 1, 0, "x", nil, c18T(39))},
 		// report_task_progress
 		{"EL", "prog-n1-done", c18Prog(1, 0, 1, 0, state.TaskParticipantStatusDone, "", nil, c18T(40))},
 		{"L", "prog-n2-failed", c18Prog(1, 0, 2, 0, state.TaskParticipantStatusFailed, "disk full", nil, c18T(41))},
@@ -233,12 +235,12 @@ func c18Menu(world byte, r0 uint64, thorough bool) []c18Cmd {
 		{"L", "prog-n1-done/attempt1", c18Prog(1, 1, 1, 0, state.TaskParticipantStatusDone, "", nil, c18T(44))},
 		{"l", "prog-n1-done/epoch9", c18Prog(9, 0, 1, 0, state.TaskParticipantStatusDone, "", nil, c18T(45))},
 		{"l", "prog-bad-status", badStatus},
-		{"L", "prog-n2-done/stale-rev", c18Prog(1, 0, 2, 0, state.TaskParticipantStatusDone, "", c18Rev(r0+17), c18T(47))},
+		{"l", "prog-n2-done/rev+1", c18Prog(1, 0, 2, 0, state.TaskParticipantStatusDone, "", c18Rev(r0+1), c18T(47))},
 		// report_node_health
 		{"EL", "health-n1-alive", c18Health(1, state.NodeStatusAlive, 1, nil)},
-		{"E", "health-n1-down", c18Health(1, state.NodeStatusDown, 2, nil)},
-		{"El", "health-n9-unknown", c18Health(9, state.NodeStatusAlive, 1, nil)},
-		{"e", "health-n2/stale-rev", c18Health(2, state.NodeStatusSuspect, 1, c18Rev(r0+19))},
+		{"e", "health-n1-down", c18Health(1, state.NodeStatusDown, 2, nil)},
+		{"el", "health-n9-unknown", c18Health(9, state.NodeStatusAlive, 1, nil)},
+		{"E", "health-n2/rev+1", c18Health(2, state.NodeStatusSuspect, 1, c18Rev(r0+1))},
 		{"e", "health-nil", command.Command{Kind: command.KindReportNodeHealth, IssuedAt: c18T(50)}},
 		// a kind the state machine does not know
 		{"El", "unknown-kind", command.Command{Kind: command.Kind("zz_unknown"), IssuedAt: c18T(51)}},
